@@ -726,6 +726,18 @@ def extract_splits():
                     if d == 0: break
                 j += 1
             body = txt[i:j]
+            # one level of private helper taking the buffer: `helper(&*self)` / `helper(self)` / `self.helper()` / `Self::helper(self)` whose body
+            # consists of setter calls on its parameter: those calls count as if written in place
+            for hm in re.finditer(r'(?:Self::)?\b(\w+)\(\s*(?:&\s*\*?\s*)?self\s*\)|self\.(\w+)\(\s*\)', body):
+                hname = hm.group(1) or hm.group(2)
+                if hname in ('new', 'from_ref', 'clone') or hname.startswith('set_') or hname.endswith('_index') or hname.endswith('_alive'): continue
+                fm = re.search(r'\bfn\s+' + hname + r'\b[^{;]*\(\s*(?:&\s*(?:mut\s+)?self|(\w+)\s*:[^)]*)\)[^{;]*\{([^{}]*)\}', txt)
+                if fm:
+                    pv = fm.group(1) or 'self'
+                    hb = fm.group(2)
+                    calls = re.findall(r'\b' + pv + r'\.(set_\w+\([^)]*\))', hb)
+                    if calls and len(calls) == len([x for x in hb.split(';') if x.strip()]):
+                        body = body.replace(hm.group(0), '; '.join('self.' + c for c in calls))
             def tri(pat): return tuple(bool(re.search(pat % k, body)) for k in ('prod', 'work', 'cons'))
             reset = tri(r'self\.set_%s_index\(\s*0\s*\)')
             alive = tri(r'self\.set_%s_alive\(\s*true\s*\)')
